@@ -112,18 +112,11 @@ Proof.
   intros H. injection H as <-. reflexivity.
 Qed.
 
-Lemma clean_sorted_edits st ed : clean_sorted st -> clean_sorted (with_edits st ed).
-Proof. intros H. exact H. Qed.
-
 Lemma get_data_state st : fst (get_data st) = fst (get_shape st).
 Proof. unfold get_data. destruct (get_shape st) as [s1 [sh|e]]; reflexivity. Qed.
 
 Lemma get_affine_clean_sorted st : clean_sorted st -> clean_sorted (fst (get_affine st)).
-Proof.
-  intros Hc. pose proof (get_shape_clean_sorted st Hc) as G. unfold get_affine.
-  destruct (get_shape st) as [s1 [sh|e]]; cbn [fst] in *; [|exact G].
-  destruct (1 <? length (files_info s1) / nvols_of_shape sh); cbn [fst]; [apply clean_sorted_edits, G | exact G].
-Qed.
+Proof. intros Hc. rewrite get_affine_fst. apply get_shape_clean_sorted, Hc. Qed.
 
 Lemma to_nifti_clean_sorted st vo em : clean_sorted st -> clean_sorted (fst (to_nifti st vo em)).
 Proof.
